@@ -280,6 +280,21 @@ def run(chk):
     if ok:
         ga, sa = pos_locals(gets[0][1], 1), pos_locals(sets[0][1], 1)
         ok = ga is not None and ga == sa and len(ga) == 2 and ga[0] != ga[1] and "get_char(" in show(feb.operand(sets[0][1]["args"][2]))
+    if ok:
+        # ... for every cell: the store depends on nothing but the two loops' own iteration tests
+        sbi = sets[0][0]
+        extra = []
+        for d in fb.control_deps(sbi):
+            dtxt = show(feb.operand(fb.blocks[d]["term"]["discr"]))
+            if dtxt.startswith("discr(next(") or dtxt == "deep_layers" or dtxt.endswith("deep_layers"):
+                continue
+            extra.append(dtxt[:60])
+        if extra:
+            ok = False
+            chk.obligation(False)
+            chk.finding("flat_clone|conditional-copy|%s" % "; ".join(sorted(extra))[:80], rule="R-FLATTEN", where="%s:%s" % (fb.file, sets[0][1]["line"]), fn="Buffer::flat_clone",
+                        what="the flattening loop stores a cell only when `%s`: every composited cell must be stored (what is visible is decided by Buffer::get_char alone)" % "; ".join(sorted(extra))[:120])
+            ok = True       # the finding above is the report; do not report the generic copy finding as well
     chk.obligation(ok)
     if not ok:
         chk.finding("flat_clone|copy", rule="R-FLATTEN", where="%s:%s" % (fb.file, fb.line), fn="Buffer::flat_clone",
